@@ -105,11 +105,12 @@ theorem callN_core (hP : P.length < 65536)
     (hK : ∀ i, i < P.length → (p.defs.getD f0.defIdx default).consts.getD i .nil = litOf V (P.getD i .nil))
     (PS : PushSpec p f0 rest V P)
     (FF : FloatFacts) (G : String → Prop) (T : Expr → Prop) (w : Bool) (fuel : Nat) (IH : CorrectAt p f0 rest V P G T w fuel)
-    (hns : ∀ a, T a → isSplice a = none)
+    (ML : MLAt G T w fuel) (hns : ∀ a, T a → isSplice a = none)
     (f : String) (args : List Expr) (hna : f ≠ "apply") (hG : G f) (hTa : ∀ a, a ∈ args → T a)
     (c cq : CState) (slot0 : JSlot) (sc : Scope) (rs : List Scope) (pool : List KConst) (ps : List (List KConst))
     (n2 : Nat) (pos : Pos) (env env_a : Env) (s s_a s' : SS) (vs : List Value) (v : Value)
     (hs : c.scopes = sc :: rs) (hp : c.pools = pool :: ps) (hl : c.lim ≤ 240) (htop : sc.top = false)
+    (hm : w = true → c.map.length = c.buf.length)
     (hcc : cCall (cValue fuel) {} (.sym f) args c = some (slot0, cq))
     (hsa : evalArgs (n2 + 1) pos env args s = .ok (vs, env_a) s_a) (happ : applyFn (n2 + 1) pos (.cfun f) vs s_a = .ok v s')
     (hE : EnvS G c.scopes env s.boxes.size sc.ra) :
@@ -137,7 +138,7 @@ theorem callN_core (hP : P.length < 65536)
   have hs1 : ({ c with vals := vals1 } : CState).scopes = sc :: rs := hs
   have hp1 : ({ c with vals := vals1 } : CState).pools = pool :: ps := hp
   obtain ⟨ra2, ns2, more2, seg2, segm2, hc2, pv2, r1a, r3a, sok2, bx2, es2, nf2, vm2⟩ :=
-    toSlots_correct p f0 rest V P G T w (fuel' + 1) IH hns args hTa _ c2 slots sc rs pool ps (n2 + 1) pos env env_a s s_a vs hs1 hp1 hl htop h2 hsa hE
+    toSlots_correct p f0 rest V P G T w (fuel' + 1) IH ML hns args hTa _ c2 slots sc rs pool ps (n2 + 1) pos env env_a s s_a vs hs1 hp1 hl htop hm h2 hsa hE
   have hs2 : c2.scopes = { sc with ra := ra2, syms := sc.syms ++ ns2 } :: rs := by rw [hc2]
   have hp2 : c2.pools = (pool ++ more2) :: ps := by rw [hc2]
   have hl2 : c2.lim ≤ 240 := by rw [hc2]; exact hl
